@@ -69,6 +69,10 @@ let cmd_build () =
             List.iter (fun (_, n) -> print_string (pr_node n); print_char '\n') g.g_nodes;
             List.iter (fun (a, b) -> Printf.printf "EDGE %s %s\n" (hexb a) (hexb b)) g.g_edges
           | Panic site -> Printf.printf "OUTCOME panic %s\n" (hexb site));
+         (match census src path None t with
+          | Ok es -> List.iter (fun n -> Printf.printf "ENT idpre=%s type=%s line=%d snippet=%s name=%s\n"
+                                  (hexb n.n_idpre) (hexb n.n_type) (int_of_n n.n_line) (hexb n.n_snippet) (hexb n.n_name)) es
+          | Panic _ -> ());
          print_string "ENDCASE\n";
          loop ()
        | [""] -> loop ()
